@@ -265,3 +265,113 @@ for _ta in range(3):
             bounds="nodes of types (%s,%s): node A site in {unset,2}, capacities bit, capacity-allocations bit, unbounded cores, 0..2 components of 2 types; "
                    "node B fixed site; 1 service (2 types, bw unbounded, capacities bit, site in {unset, 1}); counts vs direct tally"
                    % (["VM", "Switch", "Facility"][_ta], ["VM", "Switch", "Facility"][_tb]))
+
+
+# ------------------------------------------------------------------ topology level: the real slice objects, every creation order
+from harness.topolib import untraced
+from fim.user.topology import ExperimentTopology
+from fim.user.node import NodeType as _NT
+from fim.user.network_service import ServiceType as _ST, MirrorDirection
+from fim.slivers.attached_components import ComponentType as _CT
+from fim.slivers.capacities_labels import Labels as _Labels
+
+ENC_T = ENC + ("fim.authz.attribute_collector.ResourceAuthZAttributes._collect_attributes_from_topo",
+               "fim.authz.attribute_collector.ResourceAuthZAttributes._collect_attributes_from_node",
+               "fim.authz.attribute_collector.ResourceAuthZAttributes._collect_attributes_from_ns",
+               "fim.logging.log_collector.LogCollector._collect_attributes_from_topo")
+TSITES = ['RENC', 'UKY']
+
+
+def _build(spec, order):
+    """spec: list of services (kind, site index, mirrors in-slice port?) created in `order`; two VMs with a smart NIC each, a facility"""
+    t = ExperimentTopology()
+    nodes = []
+    for i in range(2):
+        n = t.add_node(name='n%d' % i, site=TSITES[i], ntype=_NT.VM, capacities=Capacities(core=2 + i, ram=8, disk=10 * (i + 1)))
+        n.add_component(name='nic', ctype=_CT.SmartNIC, model='ConnectX-6')
+        nodes.append(n)
+    t.add_facility(name='fac1', site='RENC', capacities=Capacities(bw=10))
+    # an in-slice port: n0's first NIC port connected to a bridge; the service-side peer carries the port's local name
+    p0 = nodes[0].components['nic'].interface_list[0]
+    br = t.add_network_service(name='br', nstype=_ST.L2Bridge, interfaces=[p0])
+    br.interface_list[0].labels = _Labels(local_name='in-slice-port')
+    for j in order:
+        kind, si, inslice = spec[j]
+        host = nodes[si].components['nic'].interface_list[1] if kind == 'mirror' and j % 2 == 0 else None
+        if kind == 'mirror':
+            to_if = nodes[si].components['nic'].interface_list[1]
+            if to_if.get_peers():
+                # the receiving port is taken by an earlier mirror on this node: give the node another NIC
+                c = nodes[si].add_component(name='nic-m%d' % j, ctype=_CT.SmartNIC, model='ConnectX-5')
+                to_if = c.interface_list[0]
+            t.add_port_mirror_service(name='svc%d' % j, from_interface_name='in-slice-port' if inslice else 'external-port-%d' % j,
+                                      to_interface=to_if, direction=MirrorDirection.Both, site=TSITES[si])
+        elif kind == 'v4ext':
+            t.add_network_service(name='svc%d' % j, nstype=_ST.FABNetv4Ext, site=TSITES[si])
+        elif kind == 'v6ext':
+            t.add_network_service(name='svc%d' % j, nstype=_ST.FABNetv6Ext, site=TSITES[si])
+        else:
+            t.add_network_service(name='svc%d' % j, nstype=_ST.L2STS, capacities=Capacities(bw=5))
+    return t
+
+
+def _topo_case(kinds, sites, inslice):
+    import itertools as _it
+    spec = list(zip(kinds, sites, inslice))
+    exp_ext = {}
+    for (kind, si, ins) in spec:
+        attr = {'mirror': RA.RESOURCE_MIRROR_SITE, 'v4ext': RA.RESOURCE_FABNETV4_EXT, 'v6ext': RA.RESOURCE_FABNETV6_EXT}.get(kind)
+        if attr is None or (kind == 'mirror' and ins):
+            continue
+        exp_ext.setdefault(attr, set()).add(TSITES[si])
+    first = None
+    for order in _it.permutations(range(len(spec))):
+        t = _build(spec, order)
+        ra = RA()
+        ra.collect_resource_attributes(source=t)
+        a = {k: sorted(v, key=str) for k, v in ra.attributes.items() if len(v)}
+        for attr in (RA.RESOURCE_MIRROR_SITE, RA.RESOURCE_FABNETV4_EXT, RA.RESOURCE_FABNETV6_EXT):
+            if sorted(a.get(attr, [])) != sorted(exp_ext.get(attr, set())):
+                return False
+        if sorted(a.get(RA.RESOURCE_SITE, [])) != sorted(set(TSITES) | {TSITES[si] for (_, si, _) in spec}):
+            return False
+        if sorted(a.get(RA.RESOURCE_CPU, [])) != [2, 3] or a.get(RA.RESOURCE_FACILITY_PORT) != ['fac1']:
+            return False
+        if 'SmartNIC' not in a.get(RA.RESOURCE_COMPONENT, []):
+            return False
+        lc = LogCollector()
+        lc.collect_resource_attributes(source=t)
+        la = lc.attributes
+        if la['vm_count'] != 2 or la['core_count'] != 5 or set(la['facilities']) != {'fac1'}:
+            return False
+        if first is None:
+            first = a
+        elif a != first:
+            return False
+    return True
+
+
+def _ck(v, bound):
+    v = v % bound
+    for k in range(bound):
+        if v == k:
+            return k
+    raise ValueError
+
+
+@harness("topology_level_services_any_creation_order", timeout=900, encodes=ENC_T,
+         bounds="real slice built through the topology API (2 VMs with smart NICs on 2 sites, facility, bridge giving an in-slice port) + 3 services, each "
+                "kind in {port mirror, FABNetv4Ext, FABNetv6Ext, L2STS}, site in 2, mirror of the in-slice port or of an external one (all symbolic "
+                "indices); every creation order (3!); authorization attributes and accounting counts vs tally. The slice code runs with tracing off "
+                "once the indices are resolved.")
+def h_topo(k0: int, k1: int, k2: int, s0: int, s1: int, s2: int, i0: bool, i1: bool, i2: bool) -> bool:
+    """
+    pre: 0 <= k0 < 4 and 0 <= k1 < 4 and 0 <= k2 < 4 and 0 <= s0 < 2 and 0 <= s1 < 2 and 0 <= s2 < 2
+    post: R(_)
+    """
+    begin()
+    KINDS = ['mirror', 'v4ext', 'v6ext', 'l2sts']
+    kinds = [KINDS[_ck(k, 4)] for k in (k0, k1, k2)]
+    sites = [_ck(s, 2) for s in (s0, s1, s2)]
+    ins = [bool(i0) and kinds[0] == 'mirror', bool(i1) and kinds[1] == 'mirror', bool(i2) and kinds[2] == 'mirror']
+    return untraced(_topo_case, kinds, sites, ins)
